@@ -18,6 +18,8 @@
    run by tools/c03.py: replication worlds (writer growth, clears, full and partial upgrades, block/hash/seek requests built
    from the replica's own missing-node query, replica reopen) on crate and model, with the oracle that every honest proof is
    accepted and every held block is byte-identical to the writer's. *)
+From HC Require HonestApplyEx.
+From HC Require Import HonestApply1 HonestApply2 HonestApply3 HonestApply.
 From HC Require Import AcceptAll1 AcceptAll2 AcceptAll AcceptAllCore3 AcceptAllHist.
 From HC Require AcceptAllEx.
 From HC Require Import ClearRefine Unified1 ProofContent.
@@ -1537,6 +1539,145 @@ Theorem C03_fresh_replicas_converge :
             some_collision cr \/ forged_signature cr bs (kp_public kp)).
 Proof. exact fresh_replicas_converge. Qed.
 
+Theorem C03_honest_round_every_wellformed_request :
+  forall cr : crypto,
+         OplogFacts.crc_ok cr ->
+         (forall x : bytes, Datatypes.length (cr_hash cr x) = 32%nat) ->
+         (forall x : bytes, all_zero (cr_hash cr x) = false) ->
+         (forall x : bytes, bytes_ok (cr_hash cr x) = true) ->
+         forall bs : list bytes,
+         writer_fits bs ->
+         forall (f : option bool) (cw : core) (dw : disk) (bw : list bytes) (sg : bytes) 
+           (jw : list sop) (evw : list event) (c : core) (d : disk) (j : list sop) 
+           (ev : list event) (H : N -> bool) (rq : request),
+         let w := N.of_nat (Datatypes.length bw) in
+         let pk := kp_public (c_keypair c) in
+         writer_at cr bs cw dw bw pk sg ->
+         RCInv cr bs c d H ->
+         t_length (c_tree c) <= w ->
+         wf_request bs (c_tree c) (d_tree d) w rq ->
+         (forall vp : vproof,
+          create_valueless_proof (c_tree cw) (d_tree dw) (rq_block rq) (rq_hash rq) 
+            (rq_seek rq) (rq_upgrade rq) = Ok vp -> frame_guard cr c d (vp_to_proof vp (rq_value bs rq))) ->
+         exists (pf : proof) (cs : changeset) (c' : core) (w' : world),
+           core_create_proof (rq_block rq) (rq_hash rq) (rq_seek rq) (rq_upgrade rq) cw
+             {| w_disk := dw; w_journal := jw; w_events := evw |} =
+           (cw, {| w_disk := dw; w_journal := jw; w_events := evw |}, Ok (Some pf)) /\
+           verifier_says cr c {| w_disk := d; w_journal := j; w_events := ev |} pf = Ok cs /\
+           core_apply_proof cr f pf c {| w_disk := d; w_journal := j; w_events := ev |} = (c', w', Ok true) /\
+           RCInv cr bs c' (w_disk w') (held_rq H rq) /\
+           t_length (c_tree c') = match rq_upgrade rq with
+                                  | Some _ => w
+                                  | None => t_length (c_tree c)
+                                  end /\
+           t_byte_length (c_tree c') = TreeRef.prefix_size bs (t_length (c_tree c')) /\
+           c_keypair c' = c_keypair c /\
+           (forall x : node,
+            In x (cs_nodes cs) ->
+            required_node (c_tree c') (d_tree (w_disk w')) (n_index x) = Ok (TreeRef.ref_at cr bs (n_index x))) /\
+           (forall k : N,
+            rq_node rq = Some k ->
+            required_node (c_tree c') (d_tree (w_disk w')) k = Ok (TreeRef.ref_at cr bs k)).
+Proof. exact honest_round. Qed.
+
+Theorem C03_honest_replicas_converge :
+  forall cr : crypto,
+         OplogFacts.crc_ok cr ->
+         (forall x : bytes, Datatypes.length (cr_hash cr x) = 32%nat) ->
+         (forall x : bytes, all_zero (cr_hash cr x) = false) ->
+         (forall x : bytes, bytes_ok (cr_hash cr x) = true) ->
+         forall bs : list bytes,
+         writer_fits bs ->
+         forall (es : list revent) (c : core) (d : disk) (j : list sop) (ev : list event) (H : N -> bool),
+         RCInv cr bs c d H ->
+         hist_all cr bs es c {| w_disk := d; w_journal := j; w_events := ev |} ->
+         exists (c' : core) (w' : world),
+           run cr es c {| w_disk := d; w_journal := j; w_events := ev |} = Some (c', w') /\
+           RCInv cr bs c' (w_disk w') (held_all H es) /\
+           c_keypair c' = c_keypair c /\
+           t_length (c_tree c') = len_all (t_length (c_tree c)) es /\
+           t_byte_length (c_tree c') = TreeRef.prefix_size bs (t_length (c_tree c')) /\
+           t_length (c_tree c) <= t_length (c_tree c') /\
+           (forall i : N, requested es i -> core_has c' i = true) /\
+           (forall i : N, H i = true -> core_has c' i = true) /\
+           (forall (i : N) (j2 : list sop) (ev2 : list event),
+            core_has c' i = true ->
+            core_get i c' {| w_disk := w_disk w'; w_journal := j2; w_events := ev2 |} =
+            (c', {| w_disk := w_disk w'; w_journal := j2; w_events := ev2 |}, Ok (Some (TreeRef.blk bs i)))).
+Proof. exact honest_replicas_converge. Qed.
+
+Theorem C03_honest_fresh_replicas_converge :
+  forall cr : crypto,
+         OplogFacts.crc_ok cr ->
+         (forall x : bytes, Datatypes.length (cr_hash cr x) = 32%nat) ->
+         (forall x : bytes, all_zero (cr_hash cr x) = false) ->
+         (forall x : bytes, bytes_ok (cr_hash cr x) = true) ->
+         forall bs : list bytes,
+         writer_fits bs ->
+         forall (kp : keypair) (es : list revent),
+         OplogFacts.keypair_ok kp = true ->
+         kp_secret kp = None ->
+         exists (d0 : disk) (ops0 : list sop) (c0 : core),
+           core_open cr (Some kp) false disk_empty = (d0, ops0, Ok c0) /\
+           (hist_all cr bs es c0 {| w_disk := d0; w_journal := []; w_events := [] |} ->
+            exists (c' : core) (w' : world),
+              run cr es c0 {| w_disk := d0; w_journal := []; w_events := [] |} = Some (c', w') /\
+              RCInv cr bs c' (w_disk w') (held_all (fun _ : N => false) es) /\
+              t_length (c_tree c') = len_all 0 es /\
+              (forall i : N, requested es i -> core_has c' i = true) /\
+              (forall (i : N) (j2 : list sop) (ev2 : list event),
+               core_has c' i = true ->
+               core_get i c' {| w_disk := w_disk w'; w_journal := j2; w_events := ev2 |} =
+               (c', {| w_disk := w_disk w'; w_journal := j2; w_events := ev2 |}, Ok (Some (TreeRef.blk bs i))))).
+Proof. exact honest_fresh_replicas_converge. Qed.
+
+Theorem C03_apply_tail_honest :
+  forall cr : crypto,
+         OplogFacts.crc_ok cr ->
+         (forall x : bytes, Datatypes.length (cr_hash cr x) = 32%nat) ->
+         (forall x : bytes, all_zero (cr_hash cr x) = false) ->
+         (forall x : bytes, bytes_ok (cr_hash cr x) = true) ->
+         forall bs : list bytes,
+         writer_fits bs ->
+         forall (f : option bool) (pf : proof) (c : core) (d : disk) (j : list sop) 
+           (ev : list event) (H : N -> bool) (cs : changeset),
+         RCInv cr bs c d H ->
+         p_fork pf = t_fork (c_tree c) ->
+         verifier_says cr c {| w_disk := d; w_journal := j; w_events := ev |} pf = Ok cs ->
+         commitable (c_tree c) cs = true ->
+         honest_changeset cr bs c pf cs ->
+         frame_guard cr c d pf ->
+         exists (c' : core) (w' : world),
+           core_apply_proof cr f pf c {| w_disk := d; w_journal := j; w_events := ev |} = (c', w', Ok true) /\
+           RCInv cr bs c' (w_disk w') (hold H (p_block pf)) /\
+           t_length (c_tree c') = (if cs_upgraded cs then cs_length cs else t_length (c_tree c)) /\
+           c_keypair c' = c_keypair c /\
+           (forall x : node,
+            In x (cs_nodes cs) ->
+            required_node (c_tree c') (d_tree (w_disk w')) (n_index x) = Ok (TreeRef.ref_at cr bs (n_index x))).
+Proof. exact apply_tail_honest. Qed.
+
+Theorem C03_offset_value :
+  forall (cr : crypto) (bs : list bytes) (t : mtree) (tf : file) (r : N),
+         AcceptAllClo.ClosedR t tf ->
+         t_roots t = TreeRef.ref_roots cr bs r ->
+         t_byte_length t = TreeRef.prefix_size bs r ->
+         t_length t = r ->
+         (forall (j : N) (n : node), required_node t tf j = Ok n -> n = TreeRef.ref_at cr bs j /\ in_len r j) ->
+         2 * r <= u64_max ->
+         sumN (map len bs) <= u64_max ->
+         forall (i : N) (cs : changeset) (m : N),
+         i * 2 <= u64_max ->
+         Forall (TreeRef.is_ref cr bs) (cs_nodes cs) ->
+         In (TreeRef.ref_node cr bs 0 i) (cs_nodes cs) ->
+         cs_roots cs = TreeRef.ref_roots cr bs m ->
+         (forall (l1 : list node) (x : node) (l2 : list node),
+          cs_nodes cs = l1 ++ x :: l2 ->
+          In (n_index x) (map n_index (cs_roots cs)) \/
+          AcceptAllClo.navail t tf (n_index x) \/ In (ft_parent (n_index x)) (map n_index l2)) ->
+         byte_offset_in_changeset t tf i cs = Ok (TreeRef.prefix_size bs i).
+Proof. exact offset_value. Qed.
+
 Print Assumptions C03_block_request_served.
 Print Assumptions C03_block_only_end_to_end.
 Print Assumptions C03_block_only_accepted.
@@ -1591,3 +1732,15 @@ Print Assumptions C03_replicas_converge.
 Print Assumptions C03_fresh_replicas_converge.
 Print Assumptions AcceptAllEx.sc_run_computed.
 Print Assumptions AcceptAll.ex_first_contact_accepted.
+Print Assumptions C03_honest_round_every_wellformed_request.
+Print Assumptions C03_honest_replicas_converge.
+Print Assumptions C03_honest_fresh_replicas_converge.
+Print Assumptions C03_apply_tail_honest.
+Print Assumptions C03_offset_value.
+Print Assumptions HonestApplyEx.ha_out_of_scope.
+Print Assumptions HonestApplyEx.ha_run_computed.
+Print Assumptions HonestApplyEx.ha_proofs_computed.
+Print Assumptions HonestApplyEx.ha_replicas_converge_applies.
+Print Assumptions HonestApplyEx.ha_round_applies.
+Print Assumptions HonestApplyEx.ha_fresh_applies.
+Print Assumptions HonestApplyEx.ha_supplied_in_changeset.
